@@ -257,7 +257,7 @@ def run(ctx):
         scen.append(random_scenario(ctx.rng, "rnd%d" % k))
     byname = {sc["name"]: sc for sc in scen}
     modelled = [sc for sc in scen if not sc.get("cold")]
-    path_limit = 3000 if ctx.quick else 200000
+    path_limit = 3000 if ctx.quick else 25000
 
     def account(mod, cfg, r, **kw):
         ctx.states += r.distinct
@@ -332,7 +332,7 @@ def run(ctx):
             total_sched += len(scheds)
             info.update({"model_states": len(g.nodes), "model_paths_total": total, "replayed": len(scheds), "exhaustive": exhaustive})
         if sc["name"] in EXPLORE:
-            metas = collect(ctx, exe, "explore", sc, str(20000 if ctx.quick else 500000), "explore", executions, timeout=1500)
+            metas = collect(ctx, exe, "explore", sc, str(20000 if ctx.quick else 60000), "explore", executions, timeout=1500)
             last = metas[-1] if metas else {}
             info.update({"code_interleavings": last.get("explored"), "code_exhaustive": last.get("exhaustive")})
         ctx.extra.setdefault("scenarios", []).append(info)
@@ -340,7 +340,7 @@ def run(ctx):
     if not want_actions <= seen_actions:
         raise tlc.TLCError("vacuity guard: actions never taken in any scenario: %s" % sorted(want_actions - seen_actions))
     for name in STRESS:
-        collect(ctx, exe, "stress", byname[name], str(200 if ctx.quick else 10000), "stress", executions)
+        collect(ctx, exe, "stress", byname[name], str(200 if ctx.quick else 3000), "stress", executions)
 
     ctx.evaluations = len(executions)
     distinct, mult = tracecheck.dedupe([e for _, _, e in executions])
